@@ -17,7 +17,7 @@ if grep -qi "no-default-features" $seed/NOTES.md 2>/dev/null && grep -qi "only.*
 if [ -n "$demo" ] && grep -q "serde" "$demo"; then feat="--features serde,serde_repr"; fi
 if [ -n "$demo" ]; then
   cp "$demo" tests/seed_demo_$n.rs
-  clean=$(RUSTFLAGS="$flags" cargo test --offline $feat --test seed_demo_$n 2>&1 | grep -E "^test result|^error" | tr '\n' ' ')
+  clean=$(RUSTFLAGS="$flags" cargo test --offline ${DEMO_FLAGS:-} $feat --test seed_demo_$n 2>&1 | grep -E "^test result|^error" | tr '\n' ' ')
   echo "DEMO on clean tree ($feat $flags): $clean"
 fi
 rm -f tests/seed_demo_$n.rs
@@ -27,7 +27,7 @@ suite=$(cargo test --workspace --no-fail-fast --offline 2>&1 | grep -E "^test re
 echo "SUITE with change: $suite"
 if [ -n "$demo" ]; then
   cp "$demo" tests/seed_demo_$n.rs
-  changed=$(RUSTFLAGS="$flags" cargo test --offline $feat --test seed_demo_$n 2>&1 | grep -E "^test result|^error" | tr '\n' ' ')
+  changed=$(RUSTFLAGS="$flags" cargo test --offline ${DEMO_FLAGS:-} $feat --test seed_demo_$n 2>&1 | grep -E "^test result|^error" | tr '\n' ' ')
   echo "DEMO with change: $changed"
 fi
 rm -f tests/seed_demo_$n.rs
